@@ -46,7 +46,7 @@ theorem runK_ind (declared : Bool) (noU : Bool) (P : List KEv → Prop) (Q : Str
     (hQ0 : ∀ v, Q v []) (hQapp : ∀ v a b, Q v a → Q v b → Q v (a ++ b))
     (hiter : ∀ v c pos inner, P inner → Q v (iterEv v c pos inner))
     (hiterU : noU = false → ∀ v inner, P inner → Q v (iterEvU v inner))
-    (hwrap : ∀ v (asrt inner : List KEv), (∀ e ∈ asrt, e = KEv.assertShape v declared) → Q v inner →
+    (hwrap : ∀ v (asrt inner : List KEv), (∀ e ∈ asrt, ∃ ins, e = KEv.assertShape v declared ins) → Q v inner →
       P ([KEv.call (.registerRank v)] ++ asrt ++ inner ++ [KEv.call (.endIter v)]))
     :
     ∀ (loops zr : List String) (zt : ATree) (ops : List Operand),
@@ -67,7 +67,7 @@ theorem runK_ind (declared : Bool) (noU : Bool) (P : List KEv → Prop) (Q : Str
         apply hwrap
         · intro e he
           split at he
-          · simp only [List.mem_singleton] at he; exact he
+          · simp only [List.mem_singleton] at he; exact ⟨_, he⟩
           · cases he
         · -- the yields
           suffices hy : ∀ (ys : List ((Int × Tree Int Int d × List (Nat × ATree)) × Nat)),
@@ -185,12 +185,12 @@ theorem Bal.iterEvU (v : String) (inner : List KEv) (h : Bal inner) : Bal (iterE
   · simp [Bal, cnt, callsOf, sumInc, nMul, nUpd, nAdd]
   · simp [Bal, cnt, callsOf, sumInc, nMul, nUpd, nAdd]
 
-theorem Bal.asserts (v : String) (asrt : List KEv) (h : ∀ e ∈ asrt, ∃ ok, e = KEv.assertShape v ok) : Bal asrt := by
+theorem Bal.asserts (v : String) (asrt : List KEv) (h : ∀ e ∈ asrt, ∃ d ins, e = KEv.assertShape v d ins) : Bal asrt := by
   induction asrt with
   | nil => exact Bal.nil
   | cons e es ih =>
-    obtain ⟨ok, rfl⟩ := h e List.mem_cons_self
-    have : Bal [KEv.assertShape v ok] := by simp [Bal, cnt, callsOf, sumInc, nMul, nUpd, nAdd]
+    obtain ⟨d, ins, rfl⟩ := h e List.mem_cons_self
+    have : Bal [KEv.assertShape v d ins] := by simp [Bal, cnt, callsOf, sumInc, nMul, nUpd, nAdd]
     exact Bal.append this (ih (fun e he => h e (List.mem_cons_of_mem _ he)))
 
 theorem runK_bal (declared : Bool) (loops zr : List String) (zt : ATree) (ops : List Operand) :
@@ -259,9 +259,8 @@ theorem runK_ub (declared : Bool) (loops zr : List String) (zt : ATree) (ops : L
     · induction asrt with
       | nil => exact UB.nil
       | cons e es ih =>
-        have := ha e List.mem_cons_self
-        subst this
-        have : UB [KEv.assertShape v declared] := by intro r; simp [callsOf, nUse, nBody]
+        obtain ⟨ins, rfl⟩ := ha e List.mem_cons_self
+        have : UB [KEv.assertShape v declared ins] := by intro r; simp [callsOf, nUse, nBody]
         exact UB.append this (ih (fun e he => ha e (List.mem_cons_of_mem _ he)))
     · intro r; simp [callsOf, nUse, nBody]
   · intro _; exact hU
@@ -368,12 +367,12 @@ theorem SafeIn.iterEvU (v : String) (inner : List KEv) (h : Safe inner) : SafeIn
   · intro regd hv; simp [callsOf, safeB]
   · intro regd hv; simp only [callsOf, List.filterMap_cons, List.filterMap_nil, safeB, hv]; rfl
 
-theorem callsOf_asserts (v : String) (asrt : List KEv) (h : ∀ e ∈ asrt, ∃ ok, e = KEv.assertShape v ok) :
+theorem callsOf_asserts (v : String) (asrt : List KEv) (h : ∀ e ∈ asrt, ∃ d ins, e = KEv.assertShape v d ins) :
     callsOf asrt = [] := by
   induction asrt with
   | nil => rfl
   | cons e es ih =>
-    obtain ⟨ok, rfl⟩ := h e List.mem_cons_self
+    obtain ⟨d, ins, rfl⟩ := h e List.mem_cons_self
     simp only [callsOf, List.filterMap_cons]
     exact ih (fun e he => h e (List.mem_cons_of_mem _ he))
 
@@ -405,15 +404,15 @@ theorem nUse_cons' (r ty : String) (op : MOp) (ops : List MOp) :
 /-! ### assertions, and what kind of calls a kernel makes -/
 
 theorem runK_asserts (declared : Bool) (loops zr : List String) (zt : ATree) (ops : List Operand) :
-    ∀ e ∈ (runK declared loops zr zt ops).2, ∀ v ok, e = KEv.assertShape v ok → ok = declared := by
-  let P : List KEv → Prop := fun evs => ∀ e ∈ evs, ∀ v ok, e = KEv.assertShape v ok → ok = declared
+    ∀ e ∈ (runK declared loops zr zt ops).2, ∀ v d ins, e = KEv.assertShape v d ins → d = declared := by
+  let P : List KEv → Prop := fun evs => ∀ e ∈ evs, ∀ v d ins, e = KEv.assertShape v d ins → d = declared
   have happ : ∀ a b, P a → P b → P (a ++ b) := by
     intro a b ha hb e he
     rcases List.mem_append.1 he with h | h
     · exact ha e h
     · exact hb e h
   have hsing : ∀ op, P [KEv.call op] := by
-    intro op e he v ok h
+    intro op e he v d ins h
     simp only [List.mem_singleton] at he; subst he; cases h
   apply runK_ind declared false P (fun _ => P)
   · intro e he; cases he
@@ -431,10 +430,10 @@ theorem runK_asserts (declared : Bool) (loops zr : List String) (zt : ATree) (op
           | cons x xs ih =>
             rw [List.flatMap_cons]
             refine happ _ _ ?_ ih
-            intro e he v ok h
+            intro e he v d ins h
             simp only [mulEv, List.mem_cons, List.mem_singleton, List.not_mem_nil, or_false] at he
             rcases he with rfl | rfl <;> cases h
-        · intro e he v ok h
+        · intro e he v d ins h
           unfold iaddEv at he
           split at he <;> simp at he <;> rcases he with rfl | rfl | rfl <;> cases h
     · intro e he; cases he
@@ -443,28 +442,43 @@ theorem runK_asserts (declared : Bool) (loops zr : List String) (zt : ATree) (op
   · intro v c pos inner hi
     unfold iterEv
     refine happ _ _ (happ _ _ ?_ hi) (hsing _)
-    intro e he v' ok h
+    intro e he v' d ins h
     simp only [List.mem_cons, List.mem_singleton, List.not_mem_nil, or_false] at he
     rcases he with rfl | rfl <;> cases h
   · intro _ v inner hi
     unfold iterEvU
     refine happ _ _ (happ _ _ ?_ hi) (hsing _)
-    intro e he v' ok h
+    intro e he v' d ins h
     simp only [List.mem_singleton] at he; subst he; cases h
   · intro v asrt inner ha hi
     refine happ _ _ (happ _ _ (happ _ _ (hsing _) ?_) hi) (hsing _)
-    intro e he v' ok h
-    rw [ha e he] at h
-    exact ((KEv.assertShape.inj h).2).symm
+    intro e he v' d ins h
+    obtain ⟨ins', hins⟩ := ha e he
+    rw [hins] at h
+    exact ((KEv.assertShape.inj h).2.1).symm
   · intro h; cases h
 
-theorem assertsOk_of_declared (loops zr : List String) (zt : ATree) (ops : List Operand) :
-    assertsOk (runK true loops zr zt ops).2 = true := by
+theorem assertsOk_of_declared (wtr : String → Bool) (loops zr : List String) (zt : ATree) (ops : List Operand) :
+    assertsOk wtr (runK true loops zr zt ops).2 = true := by
   unfold assertsOk
   rw [List.all_eq_true]
   intro e he
   cases e with
-  | assertShape v ok => exact runK_asserts true loops zr zt ops _ he v ok rfl
+  | assertShape v d ins =>
+    have := runK_asserts true loops zr zt ops _ he v d ins rfl
+    subst this; rfl
+  | call op => rfl
+  | body r => rfl
+  | pop o => rfl
+
+/-- … nor when the destination's write trace is not being collected -/
+theorem assertsOk_of_untraced (wtr : String → Bool) (hw : ∀ v, wtr v = false) (evs : List KEv) :
+    assertsOk wtr evs = true := by
+  unfold assertsOk
+  rw [List.all_eq_true]
+  intro e _
+  cases e with
+  | assertShape v d ins => simp [hw v]
   | call op => rfl
   | body r => rfl
   | pop o => rfl
